@@ -72,8 +72,8 @@ def oracle(case):
         ref = refs.dft_stats(x, y, D, L, w, om, cfg["order"])
         Sx = tol.seg_scale(x, D, L, w, cfg["order"])
         Sy = Sx if y is None else tol.seg_scale(y, D, L, w, cfg["order"])
-        b4 = tol.budget4(L, om, Sx, Sy)
-        e2 = tol.budget2(L, om, Sx ** 0.5 * Sy ** 0.5)
+        b4 = tol.budget4(L, om, Sx, Sy, len(D))
+        e2 = tol.budget2(L, om, Sx ** 0.5 * Sy ** 0.5, len(D))
         bm2 = tol.budget_m2(e2, ref["M2"], b4)      # proportional to the scatter, not to |mean|^2
         exp_var = ref["M2"] / K
         if K == 1 and (var[j] != 0.0 or dev[j] != 0.0 or gdev[j] != 0.0):
